@@ -98,6 +98,46 @@ def include_graphs(rng, elab):
     return out
 
 
+# %include arguments by class: unknown / malformed schemes, package: references with 0-2 colons naming existing,
+# missing and non-package modules, bracketed hosts, percent escapes, fragments, directories, odd paths
+INCLUDE_ARGS = ["conf:site.conf", "zope://h/x.conf", "svn+ssh://h/x", "mailto:a@b", "package:foo", "package:",
+                "package::", "package:os:x", "package:nosuch9:x", "package:ZConfig:nosuch.xml", "package:.:x",
+                "package:ZConfig.nosuch9:component.xml", "http://[x", "http://[::1", "file:///%00", "x%00y", "ftp://",
+                "x#frag", "#", "file:", "file://", "//h/x", "\\\\h\\x", "c:x", "C:\\x", "a b", "%41", "?q",
+                "nosuch.conf", "sub/", ".", "..", "/", "file:///", "data:,k%20v", "x:", ":x", "1:2"]
+
+
+def include_arg_cases(ctx, base):
+    """one %include line with an argument of every class, at top level and inside a section, literal and through a
+    %define; evaluated on the real loader only (there is nothing to model: the observable is the exception family)"""
+    rng = ctx.rng
+    root = tempfile.mkdtemp(prefix="zcv-inc-", dir="/dev/shm" if os.path.isdir("/dev/shm") else None)
+    try:
+        os.makedirs(os.path.join(root, "sub"))
+        hosts = [c for c in base if not c.faults][:: max(1, len(base) // 6)][:6] or base[:3]
+        for c in hosts:
+            for arg in INCLUDE_ARGS:
+                for via_define in (False, True):
+                    lines = list(c.lines)
+                    depth_ok = [i for i in range(len(lines) + 1)]
+                    pos = rng.choice(depth_ok)
+                    inc = ["%define zcvu " + arg.replace("$", "$$"), "%include $zcvu"] if via_define else ["%include " + arg]
+                    lines[pos:pos] = inc
+                    p = os.path.join(root, "main.conf")
+                    with open(p, "w", encoding="utf-8", newline="") as f:
+                        f.write("".join(l + "\n" for l in lines))
+                    out, _, _ = cfgrun.real_load_path(c.real, p)
+                    ctx.evaluations += 1
+                    ctx.count("include-arg:" + out[0])
+                    ctx.nontriv(("incarg", id(c.sd), arg, via_define, pos))
+                    if out[0] == "internal":
+                        ctx.violate("%s escaped from loadConfig for '%%include %s'" % (out[1], arg),
+                                    {"schema_xml": F.render_xml(c.sd), "lines": lines, "impl": out},
+                                    signature="C07:include-arg:%s" % out[1])
+    finally:
+        shutil.rmtree(root, ignore_errors=True)
+
+
 def run(ctx):
     obligations, discharged, names = core.standard_prelude(ctx, ["ZCV.Props.C07"])
     n_s, n_t = (800, 40) if ctx.thorough() else (70, 18)
@@ -105,6 +145,8 @@ def run(ctx):
     base = cfgstream.gen_cases(ctx, n_s, n_t, nfaults=(0, 0, 1))
     cases = []
     for c in base:
+        if c.faults:
+            cases.append(c)     # the faulty text as generated (every fault kind of the catalogue, unmasked by mutation)
         k = rng.random()
         d = cfgstream.Case()
         d.sd, d.real, d.elab, d.hnames = c.sd, c.real, c.elab, c.hnames
@@ -143,6 +185,7 @@ def run(ctx):
             where = "cyclic-include" if "cyclic" in c.faults else "override" if c.overrides else "text"
             ctx.violate("%s escaped from the loading entry point (%s)" % (what, where), dict(c.replay(), impl=c.out),
                         signature="C07:%s:%s" % (where, what))
+    include_arg_cases(ctx, base)
     # the validator: given a loadable schema, status 0 iff all files valid, else 1 with one message per invalid file
     _validator(ctx, base[:60] if not ctx.thorough() else base[:600])
     if cases:
